@@ -45,8 +45,13 @@ def run(ck: Checker):
     mod = ck.repo.module(SERVERPROC)
     bp = mod.cls('BaseProxy')
     # ------------------------------------------------------------------ C13-1
+    def extra(node, a):
+        # the remote increment / decrement is a connection plus a request: either can fail (server gone, EMFILE, ...)
+        return {'Exception'} if any((dotted(c.func) or '') in ('dispatch', '_Client', 'self._Client', 'self._dispatch') for c in calls_in(a)) else set()
+
     f = bp.method('_incref')
-    cfg = build_cfg(f, ck.repo, None)
+    # a failed increment must not be swallowed: the proxy would exist (and later give back) a reference it never took
+    cfg = build_cfg(f, ck.repo, make_fallible(Scope(f), iters=set(), calls=set(), extra=extra))
     ck.analysed_func(f, cfg)
     res = count_minmax(cfg, cfg.entry, _inc, back='skip')
     fin = [n for n in walk_shallow_func(f.node) if isinstance(n, ast.Call) and (dotted(n.func) or '').endswith('Finalize')]
@@ -76,9 +81,6 @@ def run(ck: Checker):
     ck.ob('C13-1', f, (f.node.lineno, '_incref'), not probs, '; '.join(probs) if probs else '+1 on both branches (in-server / remote) and one finaliser → _decref(self._token, …)')
     f = bp.method('_decref')
 
-    def extra(node, a):
-        return {'Exception'} if any((dotted(c.func) or '') in ('dispatch', '_Client') for c in calls_in(a)) else set()
-
     cfg = build_cfg(f, ck.repo, make_fallible(Scope(f), iters=set(), calls=set(), extra=extra))
     ck.analysed_func(f, cfg)
     res = count_minmax(cfg, cfg.entry, lambda n: _inc(n, 'decref'), back='skip')
@@ -96,7 +98,9 @@ def run(ck: Checker):
     ck.ob('C13-1', f, (f.node.lineno, '_decref'), not probs, '; '.join(probs) if probs else '−1 exactly once on both branches; a failed remote decref is contained')
     # ------------------------------------------------------------------ C13-2
     f = bp.method('__reduce__')
-    cfg = build_cfg(f, ck.repo, None)
+    # with the remote increment modelled as fallible: a failure leaves by the exception (pickling fails, counts stay
+    # exact); a handler that lets __reduce__ return sends out a pickle that holds no reference
+    cfg = build_cfg(f, ck.repo, make_fallible(Scope(f), iters=set(), calls=set(), extra=extra))
     ck.analysed_func(f, cfg)
     res = count_minmax(cfg, cfg.entry, _inc, back='skip')
     v = res.get(('node', cfg.exit_return))
@@ -105,7 +109,7 @@ def run(ck: Checker):
     late = [r for r in rets if path_avoiding(cfg, [cfg.entry], {r.id}, avoid=incs) is not None]
     ok = v == (1, 1) and not late
     rb = all(isinstance(r.ast.value, ast.Tuple) and dotted(r.ast.value.elts[0]) == 'RebuildProxy' for r in rets)
-    ck.ob('C13-2', f, (f.node.lineno, 'BaseProxy.__reduce__'), ok and rb, f'every path increments exactly once before one of the {len(rets)} returns of (RebuildProxy, …)' if ok and rb else f'a path through __reduce__ increments {v} times / returns before incrementing / does not rebuild with RebuildProxy: the pickle in transit is not counted')
+    ck.ob('C13-2', f, (f.node.lineno, 'BaseProxy.__reduce__'), ok and rb, f'every path increments exactly once before one of the {len(rets)} returns of (RebuildProxy, …)' if ok and rb else f'a path through __reduce__ increments {v} times (a failed remote increment that is swallowed counts as none) / returns before incrementing / does not rebuild with RebuildProxy: the pickle in transit is not counted')
     for c in mod.classes.values():
         if c is bp or not c.has_method('__reduce__'):
             continue
@@ -182,6 +186,10 @@ def run(ck: Checker):
     from .c14 import check_shortcut_address
 
     check_shortcut_address(ck, 'C13-6')
+    ck.rule('C13-7', 'releasing the last proxy of a server leaves the thread able to obtain and use the next one: the per-thread connection the finaliser closes is removed from the cache on every path (same obligation as C14-10) — otherwise a proxy obtained afterwards refers to a live, correctly counted object and cannot reach it', minimum=1)
+    from .c14 import check_closed_conn_uncached
+
+    check_closed_conn_uncached(ck, 'C13-7')
     # ------------------------------------------------------------------ C13-4
     check_create_bookkeeping(ck, 'C13-4')
     srv = mod.cls('Server')
